@@ -1,6 +1,16 @@
 #!/bin/bash
 # usage: seedcheck.sh <ID> <patch> [check-id]  -- applies a seeded patch to /repo, runs the quick check, reverts
+# with SEED_TREE=<worktree that already contains the change> nothing in /repo is touched: the harness is built from
+# that tree into a private build directory
 ID=$1; P=$2; CK=${3:-$1}
+if [ -n "$SEED_TREE" ]; then
+  cd /verif
+  export VERIF_REPO=$SEED_TREE VERIF_BUILD=/tmp/seedbuild-$ID
+  mkdir -p $VERIF_BUILD
+  VERIF_NO_EVIDENCE=1 VERIF_BUDGET_S=${VERIF_BUDGET_S:-300} ./check $CK --tier ${TIER:-quick} 2>&1 | grep -E "^(VIOLATION|C[0-9]+ tier|INFRA)" | head -${N:-4} | cut -c1-220
+  rm -rf $VERIF_BUILD
+  exit 0
+fi
 cd /repo && git apply "$P" || { echo "patch does not apply"; exit 3; }
 cd /verif
 VERIF_BUDGET_S=${VERIF_BUDGET_S:-300} ./check $CK --tier ${TIER:-quick} 2>&1 | grep -E "^(VIOLATION|C[0-9]+ tier|INFRA)" | head -${N:-4} | cut -c1-220
